@@ -34,9 +34,9 @@ man = {
         "add_only": True,
     },
     "engines": [
-        {"name": "lib-rapid", "path": "props/", "serves_properties": sorted(p for p in META if p in READY and META[p]["engine"] == "lib-rapid"),
+        {"name": "lib-rapid", "path": "props/", "serves_properties": sorted(p for p in META if p in READY and (META[p]["engine"] == "lib-rapid" or "lib-rapid" in META[p].get("also", []))),
          "kind_free_text": "in-process rapid properties (generated inputs / state machines) on exported library entry points with explicit oracles"},
-        {"name": "bb-server", "path": "internal/bb", "serves_properties": sorted(p for p in META if p in READY and META[p]["engine"] == "bb-server"),
+        {"name": "bb-server", "path": "internal/bb", "serves_properties": sorted(p for p in META if p in READY and (META[p]["engine"] == "bb-server" or "bb-server" in META[p].get("also", []))),
          "kind_free_text": "rapid state machines driving the real ts-server binary (built with -tags verif) over HTTP, with a last-write-wins model / reference evaluator as oracle and generated crash points through the fileops hook"},
     ],
     "checks": checks,
